@@ -1,6 +1,7 @@
 package main
 
 import (
+	"os"
 	"fmt"
 	"go/token"
 	"go/types"
@@ -27,8 +28,118 @@ func ifaceMethodKey(c *ssa.CallCommon) string {
 	return "(" + types.TypeString(recv, nil) + ")." + c.Method.Name()
 }
 
-// call executes a call instruction; returns result values (nil for no results).
+// callspec clauses of the function executing the call:
+//   callspec <Name> requires <expr>     obligation at every call of a function / method called <Name>
+//   callspec <Name> preserves e1, e2    assumption about such calls (recorded as an assumption)
+// <expr> is evaluated in the function's own scope with arg0, arg1, ... (and recv for interface calls) bound.
+type callspecRec struct {
+	kind string
+	text string
+	cl   *Clause
+	fr   *Frame
+}
+
+func (fr *Frame) callspecs(name string) []callspecRec {
+	var out []callspecRec
+	for f := fr; f != nil; f = f.parent {
+		if f.spec != nil {
+			for _, cl := range f.spec.ClausesOf("callspec") {
+				flds := strings.Fields(cl.Text)
+				if len(flds) < 3 || flds[0] != name {
+					continue
+				}
+				rest := strings.TrimSpace(strings.TrimPrefix(strings.TrimSpace(strings.TrimPrefix(cl.Text, flds[0])), flds[1]))
+				out = append(out, callspecRec{kind: flds[1], text: rest, cl: cl, fr: f})
+			}
+		}
+		// only closures look further up: an inlined named callee has its own (or no) callspecs
+		if f.fn.Parent() == nil {
+			break
+		}
+	}
+	return out
+}
+
 func (fr *Frame) call(site ssa.Instruction, c *ssa.CallCommon, st *State) []Val {
+	name := ""
+	if c.IsInvoke() {
+		name = c.Method.Name()
+	} else if f := c.StaticCallee(); f != nil {
+		name = f.Name()
+	}
+	var cs []callspecRec
+	if name != "" {
+		cs = fr.callspecs(name)
+	}
+	if len(cs) == 0 {
+		return fr.call0(site, c, st)
+	}
+	fc := fr.fc
+	binds := map[string]TV{}
+	for i, a := range c.Args {
+		binds[fmt.Sprintf("arg%d", i)] = TV{V: fr.val(a), T: a.Type()}
+	}
+	if c.IsInvoke() {
+		binds["recv"] = TV{V: fr.val(c.Value), T: c.Value.Type()}
+	}
+	parse := func(r callspecRec, t string) Expr {
+		e, err := ParseExpr(t)
+		if err != nil {
+			unsup("%s:%d: %v", r.cl.File, r.cl.Line, err)
+		}
+		return e
+	}
+	for _, r := range cs {
+		if r.kind == "requires" {
+			ev := r.fr.evalCtx(st, r.fr.entry).with(binds)
+			g := ev.evalBool(parse(r, r.text))
+			fc.oblige(st, "callsite", fr.path+"at:"+name+"/", g, fr.pos(site), "call-site condition for "+name+": "+r.text)
+		}
+	}
+	pre := st.clone()
+	res := fr.call0(site, c, st)
+	for _, r := range cs {
+		switch r.kind {
+		case "preserves":
+			fc.note("calls of " + name + " in " + shortName(funcKey(r.fr.fn)) + " assumed to preserve: " + r.text)
+			for _, part := range splitTop(r.text, ',') {
+				e := parse(r, strings.TrimSpace(part))
+				a := r.fr.evalCtx(pre, r.fr.entry).with(binds).eval(e)
+				b := r.fr.evalCtx(st, r.fr.entry).with(binds).eval(e)
+				fc.assume(st, eqVal(a.V, b.V))
+			}
+		case "sets":
+			// ghost assignment after the call: `callspec Pop sets pending = result.1 ? 1 : 0, last = result.0`
+			rb := map[string]TV{}
+			if sig, ok := c.Value.Type().Underlying().(*types.Signature); ok || c.IsInvoke() {
+				if c.IsInvoke() {
+					sig = c.Method.Type().(*types.Signature)
+				}
+				fr.bindResults(rb, res, sig)
+			}
+			for _, part := range splitTop(r.text, ',') {
+				k := strings.Index(part, "=")
+				if k < 0 {
+					unsup("%s:%d: callspec sets needs `name = expr`", r.cl.File, r.cl.Line)
+				}
+				gname := strings.TrimSpace(part[:k])
+				v := r.fr.evalCtx(st, pre).with(binds).with(rb).eval(parse(r, strings.TrimSpace(part[k+1:])))
+				if _, had := st.ghosts["gv:"+gname]; !had {
+					fc.ghost(st, "gv:"+gname, v.V.T.Sort)
+				}
+				st.ghosts["gv:"+gname] = fc.sc.Define("gv_"+gname, v.V.T)
+			}
+		case "ensures":
+			fc.note("calls of " + name + " in " + shortName(funcKey(r.fr.fn)) + " assumed to ensure: " + r.text)
+			ev := r.fr.evalCtx(st, pre).with(binds)
+			fc.assume(st, ev.evalBool(parse(r, r.text)))
+		}
+	}
+	return res
+}
+
+// call0 executes a call instruction; returns result values (nil for no results).
+func (fr *Frame) call0(site ssa.Instruction, c *ssa.CallCommon, st *State) []Val {
 	fc := fr.fc
 	var args []Val
 	for _, a := range c.Args {
@@ -198,6 +309,15 @@ func (fr *Frame) callByContract(site ssa.Instruction, key string, sp *Block, nam
 			binds[n] = TV{V: args[i], T: tys[i]}
 		}
 	}
+	// the callee's local ghost variables mean nothing to the caller: unconstrained values
+	for _, c := range sp.ClausesOf("ghostvar") {
+		n, so := parseGhostVar(c)
+		tv := TV{V: scalar(fc.sc.Fresh("gvx_"+n, so))}
+		if so == SIface {
+			tv.T = types.NewInterfaceType(nil, nil)
+		}
+		binds[n] = tv
+	}
 	mkEv := func(cur, old *State) *EvalCtx {
 		n := 0
 		return &EvalCtx{fc: fc, cur: cur, old: old, binds: binds, pkg: pkg, qn: &n}
@@ -221,6 +341,17 @@ func (fr *Frame) callByContract(site ssa.Instruction, key string, sp *Block, nam
 	fc.havocItems(st, items)
 	fc.hvBound = nil
 	st.next = nn
+	// objects the callee allocated and initialised (see freshRegion)
+	if os.Getenv("VERIF_FRESHALL") != "" {
+		fc.freshRegion(st, pre.next, nn)
+	} else {
+		for _, c := range sp.ClausesOf("ensures") {
+			if strings.Contains(c.Text, "fresh(") || strings.Contains(c.Text, "allocated") {
+				fc.freshRegion(st, pre.next, nn)
+				break
+			}
+		}
+	}
 	// lock effects
 	for _, c := range sp.ClausesOf("acquires") {
 		tv := fr.evalAddrClause(mkEv(pre, pre), c)
